@@ -1,6 +1,9 @@
 /-
 Model of the naming logic of `trustfall_stubgen` (`src/util.rs`, `src/root.rs`, and the item names
-built in `edges_creator.rs`, `properties_creator.rs`, `entrypoints_creator.rs`, `adapter_creator.rs`).
+built in `edges_creator.rs`, `properties_creator.rs`, `entrypoints_creator.rs`, `adapter_creator.rs`),
+as of the four repairs R1–R4 (/verif/hooks/fix-R1..R4.diff): parameter names are escaped and the
+keyword table is complete (R1), the conversion method is named by `variant_conversion_fn_name` (R2),
+entry points are conflict-checked (R3), the vertex check covers variant and conversion names (R4).
 
 Names are `List Char`.  GraphQL names are ASCII (`[_A-Za-z][_0-9A-Za-z]*`), and on ASCII
 `char::is_uppercase`, `char::to_lowercase`, `char::to_ascii_uppercase` are the ASCII operations defined
@@ -8,21 +11,23 @@ below; the model says nothing about non-ASCII names (they cannot occur in a sche
 
 Mirrored, branch by branch:
 * `to_lower_snake_case`, `upper_case_variant_name` (panics on the empty string), `escaped_rust_name`
-  (keyword table copied verbatim);
-* the derive macro's *own* `to_lower_snake_case` (trustfall_derive/src/lib.rs), which names the
-  `as_<variant>()` methods the generated edge resolvers call — it differs from stubgen's;
+  (keyword table copied verbatim, in source order), `variant_conversion_fn_name`;
+* the derive macro's `to_lower_snake_case` (trustfall_derive/src/lib.rs), which names the
+  `as_<variant>()` methods that the generated edge resolvers call;
 * every generated item name per type / property / edge / parameter / entry point;
-* `ensure_no_vertex_name_conflicts` and `ensure_no_field_name_conflicts_on_vertex_type` (rows sorted by
-  name, a `HashMap` from the mangled name to the original, panic on the first repeated key);
-* the order in which `generate_rust_stub` can fail: vertex conflict, field conflict, then
-  `trustfall_type_to_rust_type`'s `unimplemented!` on a parameter whose base type is not
-  Int/String/Float/Boolean (entry points first, then edges), then — when the files are written —
-  `syn::parse_str(..).expect("not valid Rust")` on any item whose name `syn` refuses as an identifier.
+* `ensure_no_vertex_name_conflicts` (three keys per vertex type in one `HashMap` keyed by
+  `(kind, name)`: module, variant, conversion), `ensure_no_field_name_conflicts_on_vertex_type`,
+  `ensure_no_entrypoint_name_conflicts` (rows sorted by name, panic on the first repeated key);
+* the order in which `generate_rust_stub` can fail: vertex conflict, field conflict, entry point
+  conflict, then `trustfall_type_to_rust_type`'s `unimplemented!` on a parameter whose base type is not
+  Int/String/Float/Boolean, then — when the files are written —
+  `syn::parse_str(..).expect("not valid Rust")` on any item whose name `syn` refuses as an identifier
+  (`Props/C26` proves this last one unreachable for valid names).
 
 NOT modelled: the `quote!` templates themselves and rustc.  `compileCauses` lists the *name-level*
-reasons for which the generated code cannot compile (duplicate items in one namespace, a method name the
-derive macro does not generate, a parameter colliding with a binding of the template, an item shadowing
-an import); that the stub compiles when there is none is sampled by the harness' compile oracle.
+reasons for which the generated code still cannot compile (a parameter colliding with a binding of the
+template or with another parameter after escaping, an item shadowing an import); that the stub
+compiles when there is none is sampled by the harness' compile oracle.
 
 Imports nothing outside core.
 -/
@@ -112,7 +117,23 @@ def escapeTable : List Name := [
   "try".toList,
   "macro_rules".toList,
   "union".toList,
-  "'static".toList]
+  "'static".toList,
+  -- reserved for future use, and `gen` (a keyword from the 2024 edition on)
+  "abstract".toList,
+  "become".toList,
+  "box".toList,
+  "do".toList,
+  "final".toList,
+  "macro".toList,
+  "override".toList,
+  "priv".toList,
+  "typeof".toList,
+  "unsized".toList,
+  "virtual".toList,
+  "yield".toList,
+  "gen".toList,
+  -- not an identifier at all
+  ['_']]
 
 /-- Identifiers `syn` refuses to parse as an identifier (`syn::ident::accept_as_ident`, syn 2.0.x): `_` and
 the strict and reserved keywords of the Rust reference (1.65). -/
@@ -183,20 +204,22 @@ def deriveSnakeGo : Char → Name → Name
 
 def deriveSnake (n : Name) : Name := deriveSnakeGo '_' n
 
-/-- What `syn` accepts where the templates need an identifier (an item, variant or path segment). -/
+def pfxAs : Name := "as_".toList
+
+/-- the loop of stubgen's `variant_conversion_fn_name` (util.rs) -/
+def conversionGo : Char → Name → Name
+  | _, [] => []
+  | last, c :: cs =>
+    if isUpper c then
+      (if last != '_' then ['_'] else []) ++ toLower c :: conversionGo c cs
+    else c :: conversionGo c cs
+
+/-- `variant_conversion_fn_name`: `"as_"` followed by the variant name with an underscore before every
+capital that does not follow an underscore. -/
+def variantConversionFnName (v : Name) : Name := pfxAs ++ conversionGo '_' v
+
+/-- What `syn` accepts where the templates need an identifier. -/
 def usableIdent (n : Name) : Bool := identShape n && !synReject.contains n
-
-/-- Keywords `syn` nevertheless parses where the templates put a parameter name (`#ident: #ty` in a
-parameter list, `let #ident: #ty = …`, `#ident,` as an argument) — pattern / expression positions: `_`
-(wildcard pattern, inferred-expression placeholder), `crate` / `super` / `Self` (paths), `true` / `false`
-(literals).  None of them can be a parameter for rustc. -/
-def paramKeywordParsed : List Name := [['_'], "crate".toList, "super".toList, "Self".toList, "true".toList, "false".toList]
-
-/-- What `syn` accepts as a parameter name.  `selfOk`: the parameter is the first one of an entry point
-function, where `self: T` parses as a typed receiver. -/
-def usableParamIdent (selfOk : Bool) (n : Name) : Bool :=
-  identShape n &&
-    (!synReject.contains n || paramKeywordParsed.contains n || (selfOk && n == "self".toList))
 
 /-! ### Schema as the generator's queries see it -/
 
@@ -227,7 +250,6 @@ structure Schema where
 def pfxResolve : Name := "resolve_".toList
 def sfxProperty : Name := "_property".toList
 def sfxEdge : Name := "_edge".toList
-def pfxAs : Name := "as_".toList
 
 /-- the `Vertex` enum variant for a type (`escaped_rust_name(upper_case_variant_name(name))`). -/
 def variantName (t : Name) : Name :=
@@ -244,24 +266,40 @@ def typeEdgeFnNameDef (t : Name) : Name := pfxResolve ++ toLowerSnakeCase (toLow
 def edgeModName (t : Name) : Name := escapedRustName (toLowerSnakeCase t)
 /-- an edge resolver inside the type's module; also an entry point function in entrypoints.rs. -/
 def itemFnName (e : Name) : Name := escapedRustName (toLowerSnakeCase e)
-/-- the conversion method the edge resolvers call: `as_<stubgen snake of the variant>`. -/
-def conversionCallName (t : Name) : Name := pfxAs ++ toLowerSnakeCase (variantName t)
+/-- the conversion method the edge resolvers call: `variant_conversion_fn_name(&variant_name)`. -/
+def conversionCallName (t : Name) : Name := variantConversionFnName (variantName t)
 /-- the conversion method the derive macro defines: `as_<derive snake of the variant>`. -/
 def conversionDefName (t : Name) : Name := pfxAs ++ deriveSnake (variantName t)
+/-- the identifier a parameter is bound to: `escaped_rust_name(parameter_name)`. -/
+def paramIdent (p : Name) : Name := escapedRustName p
 
-/-! ### The two conflict checks of `root.rs` -/
+/-! ### The three conflict checks of `root.rs` -/
 
-/-- the key both checks insert into their `HashMap`. -/
+/-- the lower-snake-case key of all three checks. -/
 def conflictKey (n : Name) : Name := escapedRustName (toLowerSnakeCase n)
 
-/-- `for row in rows { if let Some(v) = uniq.insert(key(row), row) { panic!(v, row) } }`:
-the first name whose key was already present, with the name stored under that key. -/
-def findConflict : List (Name × Name) → List Name → Option (Name × Name)
+/-- A `HashMap` key: the kind tag (`0` = module / function, `1` = variant, `2` = conversion method; the
+Rust code uses the strings `"module"`, `"variant"`, `"conversion"`) and the generated name. -/
+abbrev Key := Nat × Name
+
+/-- `for (key, owner) in … { if let Some(v) = uniq.insert(key, owner) { panic!(v, owner) } }`:
+the first owner whose key was already present, with the owner stored under that key. -/
+def findDup : List (Key × Name) → List (Key × Name) → Option (Name × Name)
   | _, [] => none
-  | seen, n :: rest =>
-    match seen.lookup (conflictKey n) with
+  | seen, (k, n) :: rest =>
+    match seen.lookup k with
     | some v => some (v, n)
-    | none => findConflict ((conflictKey n, n) :: seen) rest
+    | none => findDup ((k, n) :: seen) rest
+
+/-- the three names generated for a vertex type, in the order the check inserts them -/
+def vertexKeys (n : Name) : List Key :=
+  [(0, conflictKey n), (1, variantName n), (2, conversionCallName n)]
+
+/-- the single name generated for a field / an entry point -/
+def fieldKeys (n : Name) : List Key := [(0, conflictKey n)]
+
+def keyed (keys : Name → List Key) (names : List Name) : List (Key × Name) :=
+  names.flatMap fun n => (keys n).map fun k => (k, n)
 
 /-- `String`'s `Ord` on ASCII names: lexicographic by character. -/
 def nameLe : Name → Name → Bool
@@ -280,7 +318,7 @@ def sortBy {α : Type} (key : α → Name) : List α → List α
 
 /-- `ensure_no_vertex_name_conflicts`: `some (a, b)` = panics naming `a` and `b`. -/
 def vertexConflict (S : Schema) : Option (Name × Name) :=
-  findConflict [] (sortBy id (S.types.map (·.name)))
+  findDup [] (keyed vertexKeys (sortBy id (S.types.map (·.name))))
 
 /-- field names in the order the check visits them: edges, then properties. -/
 def fieldNames (t : VType) : List Name := t.edges.map (·.name) ++ t.props
@@ -288,11 +326,16 @@ def fieldNames (t : VType) : List Name := t.edges.map (·.name) ++ t.props
 /-- `ensure_no_field_name_conflicts_on_vertex_type`: `some (T, a, b)`. -/
 def fieldConflict (S : Schema) : Option (Name × Name × Name) :=
   (sortBy (·.name) S.types).findSome? fun t =>
-    match findConflict [] (fieldNames t) with
+    match findDup [] (keyed fieldKeys (fieldNames t)) with
     | some (a, b) => some (t.name, a, b)
     | none => none
 
-def checksPass (S : Schema) : Bool := (vertexConflict S).isNone && (fieldConflict S).isNone
+/-- `ensure_no_entrypoint_name_conflicts`: `some (a, b)`. -/
+def entrypointConflict (S : Schema) : Option (Name × Name) :=
+  findDup [] (keyed fieldKeys (sortBy id (S.entrypoints.map (·.name))))
+
+def checksPass (S : Schema) : Bool :=
+  (vertexConflict S).isNone && (fieldConflict S).isNone && (entrypointConflict S).isNone
 
 /-! ### The generator's outcome -/
 
@@ -306,37 +349,28 @@ def supportedParamType (ty : Name) : Bool :=
 def allParams (S : Schema) : List Param :=
   S.entrypoints.flatMap (·.params) ++ S.types.flatMap fun t => t.edges.flatMap (·.params)
 
-/-- `syn` parses every parameter of one function (`isEntry`: an entry point function). -/
-def paramsParse (isEntry : Bool) : List Param → Bool
-  | [] => true
-  | p :: rest => usableParamIdent isEntry p.name && rest.all (fun q => usableParamIdent false q.name)
-
-def allParamsParse (S : Schema) : Bool :=
-  S.entrypoints.all (fun e => paramsParse true e.params)
-    && S.types.all fun t => t.edges.all fun e => paramsParse false e.params
-
-/-- every item / variant identifier the templates splice in and `syn` later has to parse: one variant
-per type; per entry point its function; per type with properties its property resolver; per type *with
-edges* its edge resolver, its module, the conversion method, and per edge its function.
-(`resolve_…_property`, `resolve_…_edge` and `as_…` are always fine, see `Props/C26`.) -/
+/-- every identifier the templates splice in and `syn` later has to parse: one variant per type; per
+entry point its function and its parameters; per type with properties its property resolver; per type
+*with edges* its edge resolver, its module, the conversion method, and per edge its function and its
+parameters. -/
 def splicedIdents (S : Schema) : List Name :=
   S.types.map (variantName ·.name)
-  ++ S.entrypoints.map (itemFnName ·.name)
+  ++ S.entrypoints.flatMap (fun e => itemFnName e.name :: e.params.map (paramIdent ·.name))
   ++ S.types.flatMap (fun t =>
       (if t.props.isEmpty then [] else [propertyFnName t.name])
       ++ (if t.edges.isEmpty then [] else
             typeEdgeFnNameDef t.name :: edgeModName t.name :: conversionCallName t.name ::
-              t.edges.map (itemFnName ·.name)))
+              t.edges.flatMap fun e => itemFnName e.name :: e.params.map (paramIdent ·.name)))
 
 inductive Outcome where
   | ok
   | conflictVertex (a b : Name)
   | conflictField (t a b : Name)
+  | conflictEntrypoint (a b : Name)
   /-- `unimplemented!("type {processed_type} is not yet supported when autogenerating stubs")` -/
   | panicUnsupportedType
-  /-- a panic inside `RustFile::pretty_print_item` while the files are written:
-  `syn::parse_str(&item.to_string()).expect("not valid Rust")`, or `prettyplease::unparse` on what `syn`
-  could only parse as verbatim tokens (a module called `become`) -/
+  /-- a panic inside `RustFile::pretty_print_item` while the files are written
+  (`syn::parse_str(&item.to_string()).expect("not valid Rust")` / `prettyplease::unparse`) -/
   | panicPrettyPrint
   deriving DecidableEq, Repr
 
@@ -348,9 +382,12 @@ def stubCheck (S : Schema) : Outcome :=
     match fieldConflict S with
     | some (t, a, b) => .conflictField t a b
     | none =>
-      if !(allParams S).all (fun p => supportedParamType p.ty) then .panicUnsupportedType
-      else if !((splicedIdents S).all usableIdent && allParamsParse S) then .panicPrettyPrint
-      else .ok
+      match entrypointConflict S with
+      | some (a, b) => .conflictEntrypoint a b
+      | none =>
+        if !(allParams S).all (fun p => supportedParamType p.ty) then .panicUnsupportedType
+        else if !(splicedIdents S).all usableIdent then .panicPrettyPrint
+        else .ok
 
 /-! ### Name-level reasons for which a generated stub cannot compile -/
 
@@ -358,28 +395,25 @@ def nodupB : List Name → Bool
   | [] => true
   | x :: xs => !xs.contains x && nodupB xs
 
-/-- parameter names that collide with a binding the edge templates introduce themselves:
-`contexts`, `_resolve_info` (second binding of the same name in the parameter list), `resolve_info`
-(shadows the argument the call passes on); `parameters` when another parameter follows (its `let` shadows
-the `EdgeParameters` being read); and any keyword that got past `syn` (`_`, `crate`, `super`, `Self`,
-`true`, `false`, a leading `self`). -/
-def paramBindingClash (forEdge : Bool) : List Param → Bool
+/-- `parameters` is bound while another parameter still has to be read from the `EdgeParameters` of
+the same name. -/
+def parametersNotLast : List Name → Bool
   | [] => false
-  | p :: rest =>
-    (forEdge && p.name == "contexts".toList) || p.name == "_resolve_info".toList || p.name == "resolve_info".toList
-      || synReject.contains p.name
-      || (p.name == "parameters".toList && !rest.isEmpty) || paramBindingClash forEdge rest
+  | p :: rest => (p == "parameters".toList && !rest.isEmpty) || parametersNotLast rest
+
+/-- The parameter identifiers of one edge / entry point collide with a binding the templates introduce
+themselves, or with each other: `contexts` (edges only) and `_resolve_info` (second binding of the same
+name in the parameter list), `resolve_info` (shadows the argument the call passes on), `parameters` when
+another parameter follows (its `let` shadows the `EdgeParameters` being read), and two parameters with
+one identifier after escaping (`type` and `type_`). -/
+def paramBindingClash (forEdge : Bool) (params : List Param) : Bool :=
+  let ids := params.map (paramIdent ·.name)
+  (forEdge && ids.contains "contexts".toList) || ids.contains "_resolve_info".toList
+    || ids.contains "resolve_info".toList || parametersNotLast ids || !nodupB ids
 
 inductive Cause where
-  /-- two `Vertex` variants with one name (E0428) -/
-  | duplicateVariant
-  /-- the derive macro generates two `as_…` methods with one name (E0592) -/
-  | duplicateConversion
-  /-- two entry point functions with one name (E0428) -/
-  | duplicateEntrypointFn
-  /-- an edge resolver calls `as_<x>()` but the derive macro named the method differently (E0599) -/
-  | conversionMismatch
-  /-- a parameter collides with a binding of the template (E0415 / E0308 / E0599) -/
+  /-- a parameter collides with a binding of the template or with another parameter
+  (E0415 / E0308 / E0599) -/
   | paramBinding
   /-- a generated item shadows something the generated file imports: module `trustfall` (E0432),
   function `resolve_neighbors_with` (E0255) -/
@@ -389,12 +423,7 @@ inductive Cause where
 def typesWithEdges (S : Schema) : List VType := S.types.filter fun t => !t.edges.isEmpty
 
 def compileCauses (S : Schema) : List Cause :=
-  (if nodupB (S.types.map (variantName ·.name)) then [] else [.duplicateVariant])
-  ++ (if nodupB (S.types.map (conversionDefName ·.name)) then [] else [.duplicateConversion])
-  ++ (if nodupB (S.entrypoints.map (itemFnName ·.name)) then [] else [.duplicateEntrypointFn])
-  ++ (if (typesWithEdges S).all (fun t => conversionCallName t.name == conversionDefName t.name) then []
-      else [.conversionMismatch])
-  ++ (if S.entrypoints.any (fun e => paramBindingClash false e.params)
+  (if S.entrypoints.any (fun e => paramBindingClash false e.params)
         || S.types.any (fun t => t.edges.any fun e => paramBindingClash true e.params)
       then [.paramBinding] else [])
   ++ (if (typesWithEdges S).any (fun t => edgeModName t.name == "trustfall".toList)
